@@ -119,7 +119,7 @@ theorem parseModBody_serialize (o c : Char) (hoc : o ≠ c) (hpo : '+' ≠ o) (h
       (fun x hx => (hrest x hx).2)
     have hdw := dropWhile_append_stop Char.isDigit (natText mult.natAbs) rest (natText_digits _)
       (fun x hx => (hrest x hx).2)
-    rw [htw, hdw, if_neg (natText_ne_nil _), natText_value, hshown_val]
+    rw [htw, hdw, if_neg (natText_ne_nil _), natText_value, hshown_val, if_neg (by omega)]
     congr 2
     simp only [Mod.mk.injEq, true_and, Int.ofNat_eq_natCast]
     omega
